@@ -39,6 +39,7 @@ def body(check):
     # stage times are read from copies of the field: the copies must carry data, time and tag (same obligations as C07)
     from .c07 import field_deepcopy
     check.guarded("FIELD-DEEPCOPY", "field.fdata", lambda: field_deepcopy(check))
+    check.assume("a right-hand side owns the arrays it returns (as every discretisation of the library does): a callable that hands back the arrays of the field it is given is outside what is decided -- the library's add_res updates equation by equation and is itself order dependent for such a callable")
     check.assume("LSRK-POLY tolerance 2e-9 relative: the 14-digit betas in the source reproduce the published 12-digit gammas to <= 6e-10")
     check.exhaustive = True
     classes = explicit_classes(proj)
